@@ -40,9 +40,9 @@ func Path(v ssa.Value) string {
 		}
 		return "alloc"
 	case *ssa.FieldAddr:
-		return Path(x.X) + "." + FieldName(x.X.Type(), x.Field)
+		return Path(FieldOwner(x)) + "." + FieldName(x.X.Type(), x.Field)
 	case *ssa.Field:
-		return Path(x.X) + "." + FieldName(x.X.Type(), x.Field)
+		return Path(FieldOwner(x)) + "." + FieldName(x.X.Type(), x.Field)
 	case *ssa.IndexAddr:
 		if k, ok := x.Index.(*ssa.Const); ok && k.Value != nil {
 			return Path(x.X) + "[" + k.Value.ExactString() + "]"
